@@ -41,6 +41,11 @@ RECURSIVE Paths(_, _, _)
 Paths(S, v, k) == IF k = 0 THEN {<<<<>>, v>>}
                   ELSE UNION {{<<Append(p[1], e[2]), e[3]>> : e \in {f \in S : f[1] = p[2]}} : p \in Paths(S, v, k - 1)}
 
+\* enumerate_words(L, start_vertex = v): the accepted words of length <= L (with the state each one ends in)
+WordsUpToLen(S, v, L) == UNION {Paths(S, v, k) : k \in 0..L}
+RECURSIVE CountUpToLen(_, _, _)
+CountUpToLen(S, v, L) == Cardinality(Paths(S, v, L)) + (IF L = 0 THEN 0 ELSE CountUpToLen(S, v, L - 1))
+
 RECURSIVE WordsOver(_, _)
 WordsOver(A, k) == IF k = 0 THEN {<<>>} ELSE {Append(w, a) : w \in WordsOver(A, k - 1), a \in A}
 WordsUpTo(A, k) == UNION {WordsOver(A, j) : j \in 0..k}
@@ -106,6 +111,16 @@ EnumerationIsAcceptance ==
        /\ \A p \in hits : p[2] = Follow(E, v, w)
        /\ Accepts(E, v, w) <=> PrefixLen(E, v, w) = Len(w)
 
+\* enumerate_words(L) for EVERY bound L in 0..MaxLen (L = 0: the empty word alone): the listings by exact length
+\* are pairwise disjoint, so listing them one after the other lists each accepted word of length <= L exactly once
+EnumerateWordsBound ==
+  \A v \in vs :
+    /\ WordsUpToLen(E, v, 0) = {<<<<>>, v>>}
+    /\ \A L \in 0..MaxLen :
+         /\ Cardinality(WordsUpToLen(E, v, L)) = CountUpToLen(E, v, L)
+         /\ \A w \in WordsUpTo(Labels, L) : Accepts(E, v, w) <=> (\E p \in WordsUpToLen(E, v, L) : p[1] = w)
+         /\ \A p \in WordsUpToLen(E, v, L) : Len(p[1]) <= L /\ p[2] = Follow(E, v, p[1])
+
 \* the k-multiple automaton accepts exactly the accepted words whose length is a multiple of k
 MultipleLanguage ==
   HasStart =>
@@ -146,6 +161,7 @@ Probe == WordsUpTo(Labels \cup {Foreign}, MaxLen)
 Obs ==
   [ vs  |-> vs, E |-> E,
     lang |-> [v \in vs |-> [k \in 0..MaxLen |-> Paths(E, v, k)]],
+    bounds |-> 0..MaxLen,       \* enumerate_words(L) is specified as the listings lang[v][0..L] one after the other
     prefix |-> IF HasStart THEN {<<w, PrefixLen(E, Start, w)>> : w \in Probe} ELSE {},
     follow |-> {<<v, w, Follow(E, v, w)>> : v \in vs, w \in WordsUpTo(Labels \cup {Foreign}, 2)},
     mult |-> IF HasStart THEN [k \in 1..MaxMult |-> [V |-> MultV(E, Start, k), E |-> MultE(E, Start, k)]] ELSE <<>>,
